@@ -56,7 +56,15 @@ class Workspace:
             self.crates[bid] = {"dir": d, "pkg": pkg, "bins": bins, "main": bins[0], "rev": 0}
             members.append(d)
             self._write_crate(bid)
+        # a buildpack directory nested inside another buildpack's directory (a composite that keeps one of
+        # its members below itself): selecting by directory must pick the innermost one
+        self.crates["verif/inner"] = {"dir": os.path.join("outer", "inner"), "pkg": "bp-inner", "bins": ["bp-inner"], "main": "bp-inner", "rev": 0}
+        members.append(os.path.join("outer", "inner"))
+        self._write_crate("verif/inner")
         ids = list(self.crates)
+        self.composites["verif/outer"] = {"dir": "outer", "deps": [("libcnb", ids[0])], "os": "linux"}
+        self._write(os.path.join("outer", "buildpack.toml"), f'api = "0.10"\n\n[buildpack]\nid = "verif/outer"\nversion = "0.1.0"\n\n[[order]]\n[[order.group]]\nid = "{ids[0]}"\nversion = "0.0.1"\n')
+        self._write(os.path.join("outer", "package.toml"), f'[buildpack]\nuri = "."\n\n[[dependencies]]\nuri = "libcnb:{ids[0]}"\n')
         for j in range(n_composites):
             bid = f"verif/meta-{j}"
             d = os.path.join("meta", f"composite-{j}")
@@ -68,20 +76,22 @@ class Workspace:
             deps.append(("relative", "../../vendor/./some-bp/../other-bp"))
             deps.append(("verbatim", "docker://docker.io/heroku/procfile-cnb:2.0.0"))
             rng.shuffle(deps)
-            self.composites[bid] = {"dir": d, "deps": deps}
+            self.composites[bid] = {"dir": d, "deps": deps, "os": "windows" if j % 2 == 1 else "linux"}
             os.makedirs(os.path.join(root, d))
             self._write(os.path.join(d, "buildpack.toml"),
                         f'api = "0.10"\n\n[buildpack]\nid = "{bid}"\nversion = "0.{j}.0"\n# composite {j}\n\n[[order]]\n[[order.group]]\nid = "{ids[0]}"\nversion = "0.0.1"\n')
             txt = '[buildpack]\nuri = "."\n'
             for kind, v in deps:
                 txt += f'\n[[dependencies]]\nuri = "{"libcnb:" + v if kind == "libcnb" else v}"\n'
+            if j % 2 == 1:
+                txt += '\n[platform]\nos = "windows"\n'
             self._write(os.path.join(d, "package.toml"), txt)
         # a shell buildpack and a directory that only looks interesting: both must be ignored
         os.makedirs(os.path.join(root, "buildpacks", "shell-bp", "bin"))
         self._write("buildpacks/shell-bp/buildpack.toml", 'api = "0.10"\n\n[buildpack]\nid = "verif/shell"\nversion = "1.0.0"\n\n[[targets]]\nos = "linux"\n')
         self._write("buildpacks/shell-bp/bin/build", "#!/bin/sh\n")
         self._write("Cargo.toml", "[workspace]\nresolver = \"2\"\nmembers = [\n" + "".join(f'  "{m}",\n' for m in members) + "]\n")
-        self._write(".ignore", "packaged/\ncustom-out/\n")
+        self._write(".ignore", "packaged/\ncustom-out/\nrel-out/\n")
 
     def _write(self, rel, text):
         p = os.path.join(self.root, rel)
@@ -188,6 +198,8 @@ def check_composite_package_toml(ws, bid, path, pkgdir, profile):
         return f"package.toml of {bid}: dependencies {got}, expected {want}"
     if t.get("buildpack", {}).get("uri") != ".":
         return f"package.toml of {bid}: buildpack uri {t.get('buildpack')}"
+    if t.get("platform", {}).get("os", "linux") != ws.composites[bid].get("os", "linux"):
+        return f"package.toml of {bid}: platform {t.get('platform')}, the source says os = {ws.composites[bid].get('os')}"
     return None
 
 
@@ -371,7 +383,7 @@ def run(ctx):
                 ctx.cov["interrupted_runs"] = len(ks)
                 ctx.cov["fs_calls_beneath_package_dir"] = n_calls
             # (c) packaging from one buildpack's own directory
-            for b in ([rng.choice(list(ws.composites))] if ws.composites else []) + [rng.choice(list(ws.crates))]:
+            for b in ([rng.choice(list(ws.composites))] if ws.composites else []) + [rng.choice(list(ws.crates))] + ["verif/inner"]:
                 others_before = {o: snapshot(out_dir(pkgdir, profile, o)) for o in ws.all_ids() if o not in ws.closure([b])}
                 pd = [a if a != "custom-out/here" else pkgdir for a in extra_args]
                 p = package(ws, os.path.join(ws.root, ws.dir_of(b)), pd)
@@ -387,6 +399,19 @@ def run(ctx):
                 for x in ws.closure([b]):
                     for e in compare(ws, x, pkgdir, profile):
                         ctx.violation("output incomplete (single buildpack)", f"{label}: {e}", {"label": label, "buildpack": x}, "cargo_libcnb")
+            # (c2) a relative --package-dir is relative to where the command is run
+            if profile == "debug":
+                b = rng.choice(list(ws.crates))
+                cwd = os.path.join(ws.root, ws.dir_of(b))
+                rel_pkgdir = os.path.join(cwd, "rel-out", "x")
+                p = package(ws, cwd, ["--package-dir", "rel-out/x"])
+                if p.returncode == 0:
+                    if p.stdout.split() != [out_dir(rel_pkgdir, profile, b)]:
+                        ctx.violation("relative package dir misplaced", f"{label}: `--package-dir rel-out/x` run in {ws.dir_of(b)} printed {p.stdout.split()}, "
+                                      f"expected {out_dir(rel_pkgdir, profile, b)}", {"label": label, "buildpack": b}, "cargo_libcnb")
+                    for e in compare(ws, b, rel_pkgdir, profile):
+                        ctx.violation("relative package dir misplaced", f"{label}: {e}", {"label": label, "buildpack": b}, "cargo_libcnb")
+                shutil.rmtree(os.path.join(cwd, "rel-out"), ignore_errors=True)
             # (d) the sources change between runs
             b = rng.choice(list(ws.crates))
             ws.edit_source(b)
